@@ -23,7 +23,7 @@ PROPERTY_ID = "C11"
 LEVEL = "exploration"
 RULE = (
     "case = history of 2..7 generate steps over 3 client packages x 7 specs (error-status sets {404}, {409,503}, {404,422,500}, {}, "
-    "{400}, {401,403,404,429}, {502}) x force on/off, with shared-core depth 1..4 and client depth 1..3 drawn once per history. "
+    "{400}, {401,403,404,429}, {502}) x force on/off, with shared-core depth 1..4 (or a core named <client a>_core next to the clients) and client depth 1..3 drawn once per history. "
     "The invariant is evaluated after every step. Non-trivial = a history with >= 2 distinct clients whose status sets differ and "
     ">= 1 regeneration of an already generated client. distinct = distinct case JSON."
 )
@@ -48,7 +48,14 @@ def _spec(title: str, codes: list[int], tag: str, extra_op: bool = False) -> dic
 
 SPEC_CODES = [[404], [409, 503], [404, 422, 500], [], [400], [401, 403, 404, 429], [502]]
 SPECS = [_spec(f"S{i}", codes, ["pets", "orders", "users", "health", "items", "admin", "proxy"][i], extra_op=i % 2 == 0) for i, codes in enumerate(SPEC_CODES)]
-CORE_PKGS = {1: "sharedcore", 2: "shared.corepkg", 3: "shared.rt.corepkg", 4: "org.shared.rt.corepkg"}
+CORE_PKGS = {1: "sharedcore", 2: "shared.corepkg", 3: "shared.rt.corepkg", 4: "org.shared.rt.corepkg",
+             5: None}  # 5: a sibling of the clients whose name starts with client a's name (acli_core next to acli, bcli, ccli)
+
+
+def core_pkg_of(case: dict) -> str:
+    if case["core_depth"] == 5:
+        return CLIENT_PKGS[case["client_depth"]].format(c="a") + "_core"
+    return CORE_PKGS[case["core_depth"]]
 CLIENT_PKGS = {1: "{c}cli", 2: "apis.{c}cli", 3: "org.apis.{c}cli"}
 
 
@@ -71,7 +78,7 @@ def run_history(case: dict) -> tuple[list[Violation], dict]:
     os.makedirs(root)
     spec_dir = os.path.join(root, "_specs")
     os.makedirs(spec_dir)
-    core_pkg = CORE_PKGS[case["core_depth"]]
+    core_pkg = core_pkg_of(case)
     viols: list[Violation] = []
     info = {"raised_steps": 0}
     generated: dict[str, dict] = {}  # client pkg -> {"spec": idx}
@@ -134,7 +141,7 @@ def strategy():
     from hypothesis import strategies as st
 
     step = st.fixed_dictionaries({"client": st.sampled_from(["a", "b", "c"]), "spec": st.integers(0, len(SPECS) - 1), "force": st.sampled_from([True, True, False])})
-    return st.fixed_dictionaries({"core_depth": st.sampled_from([1, 2, 2, 3, 4]), "client_depth": st.sampled_from([1, 2, 3]),
+    return st.fixed_dictionaries({"core_depth": st.sampled_from([1, 2, 2, 3, 4, 5]), "client_depth": st.sampled_from([1, 2, 3]),
                                   "steps": st.lists(step, min_size=2, max_size=7)})
 
 
